@@ -9,7 +9,7 @@ import world
 import worldscen as ws
 
 R = '@R@'
-PATH_MAX, NAME_MAX = 4096, 255
+PATH_MAX, NAME_MAX = 4096, 255      # replaced in run() by the limits the tree under check is compiled against (gen_tables.platform_macros)
 
 
 def deep(prefix, total):
@@ -840,9 +840,16 @@ def unit_paths(rep, sc):
 def run(rep):
     rng = random.Random(rep.seed)
     sc = vlib.Scratch()
+    global PATH_MAX, NAME_MAX
+    try:
+        import gen_tables
+        lim = gen_tables.platform_macros(sc.src, ['PATH_MAX', 'NAME_MAX'])
+        PATH_MAX, NAME_MAX = lim['PATH_MAX'], lim['NAME_MAX']
+    except Exception as e:                    # the translator reports the same failure as a broken obligation (lean_gate)
+        vlib.log('platform limits not read from the headers (%s): windows placed around %d / %d' % (e, PATH_MAX, NAME_MAX))
     tools = proc.Tools(sc)
     vlib.lean_gate(rep, 'C18', sc, [
-        'platform limits PATH_MAX = 4096, NAME_MAX = 255 (the values the model is instantiated with)',
+        'platform limits PATH_MAX = %d, NAME_MAX = %d as cc -E -dM reports them for the translation units of the tree (regenerated into Gen.pathMax / Gen.nameMax, which the model is defined with; C18_limits)' % (PATH_MAX, NAME_MAX),
         'the file listing uses find(1) because paths beyond PATH_MAX cannot be named in one system call',
     ])
     jobs = []
